@@ -14,6 +14,7 @@ func init() {
 				runG6(c, c.anchors("gtfs:ParseRealtime"))
 			}},
 			{Name: "GUARD", Doc: "entity parsers return nil only for absent wire fields", MinInstances: 2, Run: runParserGuards},
+			{Name: "LINK", Doc: "the links between trips and vehicles are part of the order-independent result: link discipline as in C04 (links stored after the entity loop, from association tables)", MinInstances: 5, Run: runLinkRules},
 		},
 	})
 	register(&PropSpec{
